@@ -21,22 +21,18 @@ def mayPanic : Code → Bool
   | .setRes _ k => mayPanic k
   | .setOuter _ k => mayPanic k
 
-def Arg.isRes : Arg → Bool
-  | .res => true
-  | _ => false
-
 /-- `domBody code seen`, `seen` = a defer statement of this body has already executed. Excluded:
     * a deferred callee that may panic while another deferred call of the same frame is pending (F07);
-    * a defer statement whose argument is the named result variable (stored by reference, F06-1);
     * `if x := recover(); x != nil { panic(x) }` (the value comes back boxed once more, F06-3).
-    Statements after a `panic` are dead. -/
+    Statements after a `panic` are dead. (Until the repair of F06-1 a defer statement whose argument is the
+    named result variable was excluded too: the three sites stored the frame slot, not its value.) -/
 def domBody : Code → Bool → Bool
   | .done, _ => true
   | .print _ k, s => domBody k s
   | .printArg k, s => domBody k s
   | .call f _ _ k, s => domBody f false && domBody k s
-  | .defer f x k, s => domBody f false && !x.isRes && (!s || !mayPanic f) && domBody k true
-  | .deferBin _ x k, _ => !x.isRes && domBody k true
+  | .defer f _ k, s => domBody f false && (!s || !mayPanic f) && domBody k true
+  | .deferBin _ _ k, _ => domBody k true
   | .deferDel _ k, _ => domBody k true
   | .probe _ k, s => domBody k s
   | .panic _ _, _ => true
